@@ -277,6 +277,52 @@ def views(row):
     return {"order": order, "terms": out}
 
 
+def as_json_call(row):
+    """The keyword arguments of the `orjson.dumps` call of `as_json` that decide how a VALUE is written: the flags of
+    `option=` (names after `orjson.`; none when the argument is absent) and the `default=` callable."""
+    fn = row.func("as_json", "Row")
+    body = [s for s in fn.body if not (isinstance(s, ast.Expr) and isinstance(s.value, ast.Constant))]
+    if len(body) != 1 or not isinstance(body[0], ast.Return):
+        raise Shape("as_json: one return")
+    e = body[0].value
+    if not (isinstance(e, ast.Call) and ast.unparse(e.func) == "orjson.dumps"):
+        raise Shape("orjson.dumps(view, ...)")
+    flags, default = [], "none"
+    if len(e.args) > 3:
+        raise Shape("orjson.dumps arguments")
+    kw = {k.arg: k.value for k in e.keywords}
+    if len(e.args) >= 2:
+        kw["default"] = e.args[1]
+    if len(e.args) == 3:
+        kw["option"] = e.args[2]
+    if set(kw) - {"default", "option"}:
+        raise Shape("orjson.dumps keywords")
+
+    def walk(n):
+        if isinstance(n, ast.BinOp) and isinstance(n.op, ast.BitOr):
+            walk(n.left)
+            walk(n.right)
+        elif isinstance(n, ast.Attribute) and ast.unparse(n.value) == "orjson" and n.attr.startswith("OPT_"):
+            flags.append(n.attr)
+        elif isinstance(n, ast.Name) and n.id.startswith("OPT_"):
+            flags.append(n.id)
+        elif isinstance(n, ast.Constant) and n.value in (None, 0):
+            pass
+        else:
+            raise Shape("option %s" % ast.unparse(n)[:40])
+
+    if "option" in kw:
+        walk(kw["option"])
+    if "default" in kw:
+        if not isinstance(kw["default"], ast.Name):
+            raise Shape("default %s" % ast.unparse(kw["default"])[:40])
+        default = kw["default"].id
+    return {"options": flags, "default": default}
+
+
+PINNED_JSON_CALL = {"options": [], "default": "str"}
+
+
 PINNED_VIEWS = {"order": ["as_map", "values", "keys", "as_dict", "as_json"],
                 "terms": {"as_map": "(List.zip fields row)", "as_dict": "(ofPairs (asMapExpr fields row))", "values": "row",
                           "keys": "fields", "as_json": "(asDictExpr fields row)"}}
@@ -409,17 +455,23 @@ def frame_init(df):
     for st in top.body:
         if isinstance(st, ast.Assign) and len(st.targets) == 1:
             assigns[ast.unparse(st.targets[0])] = st.value
-    for need in ("dicts", "first_dict", "self._schema", "self._row_factory", "keys", "self._rows"):
+    for need in ("dicts", "first_dict", "self._schema", "self._row_factory", "self._rows"):
         if need not in assigns:
             raise Shape("assignment to %s" % need)
+    rows0 = assigns["self._rows"]
+    whole = (isinstance(rows0, ast.ListComp) and isinstance(rows0.elt, ast.Call) and ast.unparse(rows0.elt.func) == "self._row_factory"
+             and [ast.unparse(a) for a in rows0.elt.args] in (["row"], ["dict(row)"]) and not rows0.elt.keywords)
+    if "keys" not in assigns and not whole:
+        raise Shape("assignment to keys")
     if ast.unparse(assigns["dicts"]) != "iter(dictionaries)" or ast.unparse(assigns["first_dict"]) != "next(dicts)":
         raise Shape("dicts = iter(dictionaries); first_dict = next(dicts)")
     schema = ast.unparse(assigns["self._schema"])
     if schema not in ("[str(k) for k in first_dict]", "[str(k) for k in first_dict.keys()]", "list(first_dict)", "list(first_dict.keys())"):
         raise Shape("schema %s" % schema)
-    keys = ast.unparse(assigns["keys"])
-    if keys not in ("list(first_dict.keys())", "list(first_dict)", "[k for k in first_dict]"):
-        raise Shape("keys %s" % keys)
+    if not whole:
+        keys = ast.unparse(assigns["keys"])
+        if keys not in ("list(first_dict.keys())", "list(first_dict)", "[k for k in first_dict]"):
+            raise Shape("keys %s" % keys)
     t_dicts = _tuples_only_arg(assigns["self._row_factory"])
     rows = assigns["self._rows"]
     if not (isinstance(rows, ast.ListComp) and len(rows.generators) == 1 and ast.unparse(rows.generators[0].target) == "row"):
@@ -451,6 +503,16 @@ def frame_init(df):
     elt = rows.elt
     if not (isinstance(elt, ast.Call) and ast.unparse(elt.func) == "self._row_factory" and len(elt.args) == 1 and not elt.keywords):
         raise Shape("self._row_factory([...])")
+    if whole:
+        # `self._row_factory(row)`: the record itself goes to Row.__new__, which probes it with the class's field
+        # names (the TEXTS str(k)), not with the first dictionary's key objects
+        other = None
+        for st in top.orelse:
+            if isinstance(st, ast.Assign) and ast.unparse(st.targets[0]) == "self._row_factory":
+                other = _tuples_only_arg(st.value)
+        if other is None:
+            raise Shape("row factory of the rows branch")
+        return {"schema": "true", "keys": "false", "cell": "true", "first": first, "kept": kept, "t_dicts": t_dicts, "t_rows": other}
     cells = elt.args[0]
     if isinstance(cells, ast.Call) and ast.unparse(cells.func) in ("tuple", "list") and len(cells.args) == 1:
         cells = cells.args[0]
@@ -975,6 +1037,7 @@ PINNED = {
     "c02.row.create_class": ["false", "(if tuplesOnly then false else true)"],
     "c02.row.views": PINNED_VIEWS,
     "c02.row.view_objects": PINNED_OBJECTS,
+    "c02.row.as_json_call": PINNED_JSON_CALL,
     "c02.row.get": ["true", "index"],
     "c02.dataframe.init_dictionaries": PINNED_FRAME,
     "c02.dataframe.append": ["true", "true", "true"],
@@ -1000,6 +1063,7 @@ def generate(o):
     vw = o.item("c02.row.views", lambda: views(row), PINNED["c02.row.views"])
     vo = o.item("c02.row.view_objects", lambda: view_objects(row), PINNED["c02.row.view_objects"])
     gt = o.item("c02.row.get", lambda: row_get(row), PINNED["c02.row.get"])
+    jc = o.item("c02.row.as_json_call", lambda: as_json_call(row), PINNED["c02.row.as_json_call"])
     fr = o.item("c02.dataframe.init_dictionaries", lambda: frame_init(df), PINNED["c02.dataframe.init_dictionaries"])
     ap = o.item("c02.dataframe.append", lambda: frame_append(df), PINNED["c02.dataframe.append"])
     sg = o.item("c02.dataframe.init_source", lambda: frame_source(df), PINNED["c02.dataframe.init_source"])
@@ -1066,6 +1130,10 @@ def generate(o):
         t += ("def %s {α : Type} (fields : List String) (row : List α) (mapV dictV : List (String × α)) (valsV : List α) "
               "(keysV : List String) : %s := %s\n" % (VIEW_DEFS[name].replace("Expr", "From").replace("asJsonViewFrom", "asJsonFrom"),
                                                        sig[name], vo["from"][name]))
+    t += "/-- the flags of the `option=` argument of the `orjson.dumps` call of `as_json` (none: no such argument) -/\n"
+    t += "def asJsonOptions : List String := [%s]\n" % ", ".join('"%s"' % f for f in jc["options"])
+    t += "/-- its `default=` argument: the callable that renders what orjson has no rendering for -/\n"
+    t += "def asJsonDefault : String := \"%s\"\n" % jc["default"]
     t += "/-- `except ValueError: return default` -/\n"
     t += "def getAbsentReturnsDefault : Bool := %s\n" % gt[0]
     t += "/-- `return self[index]` -/\n"
